@@ -4,6 +4,8 @@ package c20
 
 import (
 	"github.com/php-any/origami/data"
+	"github.com/php-any/origami/parser"
+	"github.com/php-any/origami/runtime"
 	"verif/harness/sx"
 	"verif/symx"
 )
@@ -276,5 +278,40 @@ func H_enum_order() {
 	for i := range want {
 		symx.Assert(got[i].Kind == 'i' && got[i].I == want[i], "entries are enumerated in insertion order, whatever their names")
 	}
+	symx.Reach("end")
+}
+
+type flagProbe struct{}
+
+func (f *flagProbe) Call(ctx data.Context) (data.GetValue, data.Control) {
+	sx.Log = append(sx.Log, sx.Obs{Kind: 'b', B: data.HasUserOutput()})
+	return data.NewNullValue(), nil
+}
+func (f *flagProbe) GetName() string               { return "output_started" }
+func (f *flagProbe) GetParams() []data.GetValue    { return nil }
+func (f *flagProbe) GetVariables() []data.Variable { return nil }
+
+// H_file_programs: whole FILES run through VM.LoadAndRun on fresh VMs (the path the command line
+// takes), A then B: B starts with the "output already started" state of a fresh process (that
+// state decides whether a blank line precedes a fatal diagnostic on stderr), whatever A printed.
+func H_file_programs() {
+	aPrints := symx.Choose("a_prints", 2)
+	defer symx.VCleanup()
+	symx.VReset()
+	root := symx.VRoot()
+	symx.VFile(root+"/a.php", []string{"<?php\n$x = 1;\n", "<?php\necho \"hello\";\n"}[aPrints])
+	symx.VFile(root+"/b.php", "<?php\noutput_started();\n$y = 2;\n")
+	data.WriteOutput = func(string) { data.MarkUserOutput() }
+	run := func(file string) {
+		p := parser.NewParser()
+		vm := runtime.NewVM(p)
+		vm.SetThrowControl(func(acl data.Control) {})
+		vm.AddFunc(&flagProbe{})
+		vm.LoadAndRun(file)
+	}
+	sx.Log = sx.Log[:0]
+	run(root + "/a.php")
+	run(root + "/b.php")
+	symx.Assert(len(sx.Log) == 1 && sx.Log[0].Kind == 'b' && !sx.Log[0].B, "a program on a fresh VM starts with no output recorded, whatever an earlier program printed")
 	symx.Reach("end")
 }
